@@ -15,7 +15,7 @@ LEVEL = "exploration"
 DESIGN_REF = "DESIGN.md §3 C03, §2.3"
 RULE = (
     "Histories over 2-5 vertices (0-2 of them universes that are also linkable vertices) of: edge constructors "
-    "(6 link classes, ends from pool+None), Link.add_vertex on two-ended links (a third listing, possibly of a vertex already listed), v1=/v2= (only on links that currently list at least two vertices - model "
+    "(6 link classes, ends from pool+None), Link.add_vertex on two-ended links (a third listing, possibly of a vertex already listed), Link.unlink_from (links that lose an end; a later unlink / dontdup call on a vertex holding such a link may raise, but then must have changed nothing), v1=/v2= (only on links that currently list at least two vertices - model "
     "precondition; skipped ops are counted), link_directed/link_undirected/link_from_to with dontdup on/off, "
     "unlink(a,b,destroy) incl. a is b, the four universe membership calls, bulk creation of 7-33 parallel links / 7-40 extra universe members at once (size thresholds), toggles of Vertex.NEIGHBOR_CACHING in between, Vertex(universes=[..with repeats]), "
     "Universe(vertices=[..with repeats]) and ill-typed edge constructor arguments (int/str/Link/object as an "
@@ -28,7 +28,7 @@ RULE = (
     "detaches a link from a vertex holding >= 2 links (order preservation exercised); distinct = distinct case value."
 )
 ASSUMPTIONS = [
-    "of the four low-level association calls only Link.add_vertex on a two-ended link is generated (the vertex is appended to the link's vertices: a link may then name a vertex several times, which is what 'detaches the previous vertex only if it is no longer an end' is about); Vertex.add_to_link/remove_from_link and Link.unlink_from are covered by C01/C05 with weaker oracles because the documentation does not fix their exact effect on multiply-listed vertices",
+    "of the four low-level association calls Link.unlink_from (the link stops listing the vertex, the vertex stops listing the link) and Link.add_vertex on a two-ended link are generated (the vertex is appended to the link's vertices: a link may then name a vertex several times, which is what 'detaches the previous vertex only if it is no longer an end' is about); Vertex.add_to_link/remove_from_link and Link.unlink_from are covered by C01/C05 with weaker oracles because the documentation does not fix their exact effect on multiply-listed vertices",
     "operations on a vertex that holds a link listing a single vertex are skipped (TwoEndedLink.other is undefined there)",
     "under dontdup any joining link may be returned; removing a non-member may raise any exception type",
 ]
@@ -45,7 +45,7 @@ TECHNIQUE = "model-based stateful PBT (exhaustive small-scope + Hypothesis op-li
 
 OPS_W = (
     ["edge"] * 6 + ["v1"] * 4 + ["v2"] * 4 + ["link"] * 4 + ["unlink"] * 3
-    + ["ua", "ur", "va", "vr"] + ["newv_u", "newu", "newu2", "edge_bad"] + ["flag", "bulk", "bulk_u"] + ["av"]
+    + ["ua", "ur", "va", "vr"] + ["newv_u", "newu", "newu2", "newv_u2", "lawsnone", "edge_bad"] + ["flag", "bulk", "bulk_u"] + ["av", "uf"]
 )
 
 # coverage-guided extra engine (atheris): executions per fuzzer process, 16 processes
@@ -137,6 +137,8 @@ def check_case(case):
             skipped += 1
             classes.add("skipped:end-assignment-on-link-without-two-ends")
             continue
+        if name == "uf":
+            classes.add("Link.unlink_from")
         if name == "av":
             # only on links that list exactly two vertices so far (the result lists three); what Link.add_vertex
             # means for a link that has lost an end is not documented
@@ -144,9 +146,25 @@ def check_case(case):
                 skipped += 1
                 continue
             classes.add("third-vertex-listed-on-a-link")
-        if name in ("unlink", "link") and any(0 < len(m.ends[l]) < 2 for l in m.links_of[r[1] if name == "unlink" else r[2]]):
-            # a vertex holding a link that lists a single vertex: other() is undefined there (IndexError)
-            skipped += 1
+        degenerate_here = name in ("unlink", "link") and any(0 < len(m.ends[l]) < 2 for l in m.links_of[r[1] if name == "unlink" else r[2]])
+        if degenerate_here:
+            # the vertex holds a link that lists a single vertex, where TwoEndedLink.other() is undefined
+            # (IndexError).  Whether the call gets that far is not pinned; what IS required: if it raises, NOTHING
+            # has changed (the search comes before any detaching); if it returns, it did what the model says.
+            classes.add("call-on-vertex-holding-a-one-ended-link")
+            before_d = w.snapshot()
+            nl_before = len(w.ls)
+            try:
+                ret_d = w.execute(r)
+            except Exception:  # noqa
+                require(w.snapshot() == before_d and len(w.ls) == nl_before, "raise-changed-state", f"step {step} {list(r)}: the call raised but the graph changed")
+                compare(w, m, f"step {step} {list(r)} (raised)")
+                continue
+            exp_d = m.apply(r)
+            if exp_d[0] == "newlink":
+                require(len(w.ls) == nl_before + 1, "return-value", f"step {step}: no new link")
+            compare(w, m, f"step {step} {list(r)}")
+            changing += 1
             continue
         where = f"step {step} {list(r)}"
         # classification (on the model, before the call)
